@@ -117,12 +117,12 @@ impl RdfStore {
             }
         }
 
-        // Insert into primary storage
-        {
-            let mut triples = self.triples.write();
-            if !triples.insert(Arc::clone(&triple)) {
-                return false;
-            }
+        // Insert into primary storage. The primary lock is held until the indexes are
+        // updated, so an insert and a remove of the same triple cannot interleave and
+        // leave the indexes disagreeing with the primary set.
+        let mut triples = self.triples.write();
+        if !triples.insert(Arc::clone(&triple)) {
+            return false;
         }
 
         // Update indexes
@@ -152,6 +152,7 @@ impl RdfStore {
             }
         }
 
+        drop(triples);
         true
     }
 
@@ -159,13 +160,10 @@ impl RdfStore {
     ///
     /// Returns `true` if the triple was found and removed.
     pub fn remove(&self, triple: &Triple) -> bool {
-        // Remove from primary storage
-        let removed = {
-            let mut triples = self.triples.write();
-            triples.remove(triple)
-        };
-
-        if !removed {
+        // Remove from primary storage; the primary lock is held until the indexes are
+        // updated (see `insert`).
+        let mut triples = self.triples.write();
+        if !triples.remove(triple) {
             return false;
         }
 
@@ -202,6 +200,7 @@ impl RdfStore {
             }
         }
 
+        drop(triples);
         true
     }
 
@@ -344,12 +343,15 @@ impl RdfStore {
 
     /// Clears all triples from the store.
     pub fn clear(&self) {
-        self.triples.write().clear();
+        // Hold the primary lock while the indexes are cleared (see `insert`).
+        let mut triples = self.triples.write();
+        triples.clear();
         self.subject_index.write().clear();
         self.predicate_index.write().clear();
         if let Some(ref mut idx) = *self.object_index.write() {
             idx.clear();
         }
+        drop(triples);
     }
 
     /// Returns store statistics.
